@@ -1,4 +1,5 @@
 import Driver.C04
+import Driver.C19L
 import Driver.C10R
 import Driver.C09D
 import Driver.C15_87C
@@ -39,6 +40,7 @@ partial def loop (h : IO.FS.Stream) (out : IO.FS.Stream) (f : String → String)
   loop h out f
 
 def modes : List (String × (String → String)) := [
+  ("c19l", C19L.handle),
   ("c10r", C10R.handle),
   ("c09s", C09D.handleSw),
   ("c09d", C09D.handle),
